@@ -12,7 +12,7 @@ cd $SD || exit 2
 git add -N . >/dev/null 2>&1
 git diff -- . ':(exclude)REFACTOR_REPORT.md' > $OUT/patch.diff
 cp REFACTOR_REPORT.md $OUT/ 2>/dev/null
-W=/tmp/wt_bencheck
+W=/tmp/wt_bencheck_$NAME
 git -C /repo worktree remove --force $W >/dev/null 2>&1
 git -C /repo worktree add -f $W HEAD >/dev/null 2>&1 || exit 3
 cd $W
